@@ -234,10 +234,13 @@ class Recorder:
             self.pending_tasks.append(task)
             self.ev('api_ret', op='unreg', sid=st['sid'], ok=True)
         elif op == 'close':
-            self.ev('api', op='close')
-            await aio.async_close()
-            self.closed = True
-            self.ev('api_ret', op='close', ok=True)
+            self.ev('api', op='close', again=self.closed)
+            try:
+                await aio.async_close()
+                self.closed = True
+                self.ev('api_ret', op='close', ok=True)
+            except Exception as ex:  # noqa: BLE001
+                self.ev('api_ret', op='close', ok=False, exc=type(ex).__name__)
 
     # ------------------------------------------------------------ duplication (C16), browser, listener
     def dup_factor(self, data: bytes) -> int:
@@ -276,6 +279,16 @@ class Recorder:
                 rec.ev('cb', kind='upd', ty=rec.it.nb(type_), name=rec.it.nb(name))
         self.ev('bstart', types=[self.it.nb(t) for t in st['types']])
         self.browsers.append(AsyncServiceBrowser(self.host.zc, list(st['types']), listener=BL(), delay=st.get('delay', 10000)))
+
+    async def lookup(self, st: dict) -> None:
+        from zeroconf.asyncio import AsyncServiceInfo
+        info = AsyncServiceInfo(st['type'], st['name'])
+        self.ev('lookup', name=self.it.nb(st['name']), timeout=st.get('timeout', 3000))
+        try:
+            ok = await info.async_request(self.host.zc, st.get('timeout', 3000))
+            self.ev('lookup_ret', name=self.it.nb(st['name']), ok=bool(ok))
+        except Exception as ex:  # noqa: BLE001
+            self.ev('lookup_ret', name=self.it.nb(st['name']), ok=False, exc=type(ex).__name__)
 
     def add_listener(self) -> None:
         from zeroconf import RecordUpdateListener
@@ -324,17 +337,16 @@ class Recorder:
             if op == 'at':
                 await net.sleep_until(st['t'])
             elif op == 'query':
-                if self.closed:
-                    continue
                 data = self.build_query(st)
                 src = st.get('src', '10.0.0.9')
                 for _ in range(st.get('copies', 1) * self.dup_factor(data)):
                     self.host.inject(data, src=src, port=st.get('port', 5353), sock=st.get('sock', 0), tag=st.get('tag'))
             elif op == 'resp':
-                if not self.closed:
-                    data = self.build_response(st)
-                    for _ in range(self.dup_factor(data)):
-                        self.host.inject(data, src=st.get('src', '10.0.0.44'), tag='resp')
+                data = self.build_response(st)
+                for _ in range(self.dup_factor(data)):
+                    self.host.inject(data, src=st.get('src', '10.0.0.44'), tag='resp')
+            elif op == 'lookup':
+                self.bg.append(asyncio.ensure_future(self.lookup(st)))
             elif op == 'bstart':
                 self.start_browser(st)
             elif op == 'ladd':
@@ -360,7 +372,10 @@ class Recorder:
                 await self.api(st)
         for fut in self.bg:
             if not fut.done():
-                await fut
+                try:
+                    await asyncio.wait_for(fut, timeout=20)
+                except Exception:  # noqa: BLE001
+                    pass
         self.ev('end')
         self.stopped = True
         for b in self.browsers:
@@ -375,6 +390,8 @@ class Recorder:
         for e in self.net.log:
             if e['ev'] == 'rand' and e['site'] in ('resp', 'tc'):
                 extra.append({'ev': 'rand', 't': e['t'], 'site': e['site'], 'v': e['v'], 'seq': e['seq']})
+            elif e['ev'] == 'tclose':
+                extra.append({'ev': 'tclose', 't': e['t'], 'sock': e['sock'], 'seq': e['seq']})
             elif e['ev'] == 'exc' and not (self.events and e['t'] > self.events[-1]['t']):
                 extra.append({'ev': 'exc', 't': e['t'], 'what': str(e.get('cls')), 'msg': str(e.get('msg')), 'seq': e['seq']})
         keyed = [(k, ev) for k, ev in zip(self._keys, self.events)] + [((x['seq'], 0, 0), x) for x in extra]
@@ -676,3 +693,63 @@ def gen_c09(rng: random.Random, sid: str, thorough: bool = False) -> dict:
         steps.append({'op': 'at', 't': end})
     return {'id': sid, 'seed': rng.randint(0, 10 ** 9), 'steps': steps, 'layout': rng.choice(['single', 'split']),
             'rand': rng.choice([None, 'lo', 'hi'])}
+
+
+def gen_c17(rng: random.Random, sid: str, thorough: bool = False) -> dict:
+    """Mixed activity, then close at an arbitrary instant, hours of virtual time with more traffic, and close again."""
+    sc = gen_resp(rng, sid, rng.choice(['c12', 'c11', 'c08']), thorough)
+    steps = [s for s in sc['steps'] if s['op'] != 'close']
+    # drop the trailing "at" and pick the close instant somewhere in the active part
+    times = [s['t'] for s in steps if s['op'] == 'at']
+    svc0 = next(s['svc'] for s in steps if s['op'] == 'reg')
+    t_end = times[-1]
+    t_lo = min(t for t in times if t >= 600) if any(t >= 600 for t in times) else 600
+    t_close = rng.choice([rng.randint(t_lo, max(t_lo + 1, t_end - 3500)),
+                          rng.choice([t for t in times if t >= t_lo] or [t_lo]) + rng.choice([0, 1, 10, 60, 130, 300, 600, 1100])])
+    extra: List[Tuple[int, dict]] = []
+    tb = rng.randint(500, max(501, t_close))
+    extra.append((tb, {'op': 'bstart', 'types': [svc0['type'], '_other._tcp.local.'], 'delay': rng.choice([1000, 10000])}))
+    extra.append((tb, {'op': 'ladd'}))
+    for _ in range(rng.choice([0, 1, 2])):
+        tl = max(0, t_close - rng.choice([1, 150, 900, 2500, 5000]))
+        extra.append((tl, {'op': 'lookup', 'type': '_http._tcp.local.', 'name': rng.choice(['Remote._http._tcp.local.', svc0['name']]),
+                           'timeout': rng.choice([200, 3000, 10000])}))
+    if rng.random() < 0.5:
+        # a registration with probing in flight when the instance closes
+        sp = service_spec(3, 0, 2, 'v4')
+        extra.append((max(0, t_close - rng.choice([1, 100, 200, 340, 360, 600, 790])), {'op': 'reg_bg', 'svc': sp, 'coop': False,
+                                                                                       'rename': True, 'exact': []}))
+    merged: List[Tuple[int, int, dict]] = []
+    t = 0
+    k = 0
+    for s in steps:
+        if s['op'] == 'at':
+            t = s['t']
+            continue
+        if t > t_close:
+            continue
+        merged.append((t, k, s))
+        k += 1
+    for (tt, s) in extra:
+        merged.append((tt, k, s))
+        k += 1
+    merged.append((t_close, k + 1000, {'op': 'close'}))
+    # traffic after the close request: immediately (during the goodbyes), shortly after, and hours later
+    post = []
+    svcs = [s['svc'] for s in steps if s['op'] == 'reg']
+    for dt in (0, 1, 130, 260, 400, 1500, 9000, 3600 * 1000, 4 * 3600 * 1000 - 5):
+        if rng.random() < 0.6:
+            q = gen_query(rng, svcs, 'c12')
+            post.append((t_close + dt, k + 2000 + len(post), q))
+        if rng.random() < 0.3:
+            post.append((t_close + dt, k + 2000 + len(post), {'op': 'resp', 'recs': [
+                {'rec': [svc0['type'], wire.T_PTR, 1, 'Remote.' + svc0['type']], 'ttl': rng.choice([4500, 0, 1125])}]}))
+    merged += post
+    merged.append((t_close + 4 * 3600 * 1000, k + 5000, {'op': 'close'}))
+    merged.sort(key=lambda x: (x[0], x[1]))
+    out: List[dict] = []
+    for (tt, _, s) in merged:
+        out += [{'op': 'at', 't': tt}, s]
+    out.append({'op': 'at', 't': t_close + 4 * 3600 * 1000 + 1000})
+    sc['steps'] = out
+    return sc
